@@ -372,7 +372,7 @@ impl AsServer<'_> {
                 if !is_valid {
                     return None;
                 }
-                if !addr.iter().any(|p| matches!(p, Protocol::P2p(_))) {
+                if !matches!(addr.iter().last(), Some(Protocol::P2p(_))) {
                     addr.push(Protocol::P2p(peer))
                 }
                 // Only collect distinct addresses.
